@@ -2,6 +2,7 @@ package main
 
 import (
 	"fmt"
+	"os"
 	"go/constant"
 	"go/token"
 	"go/types"
@@ -94,10 +95,29 @@ func (fc *FnCtx) blockPos(b *ssa.BasicBlock) token.Pos {
 func (fc *FnCtx) resolveLocal(name string, b *ssa.BasicBlock, upto int, override map[*ssa.Phi]Val, h *Heap, pos token.Pos) (Val, bool) {
 	// which object does the name denote at this position?
 	var target types.Object
-	if pos.IsValid() {
+	// candidates: the function's own variables of that name (from debug info); with shadowing, the closest
+	// declaration before pos whose scope contains pos
+	for obj := range fc.debugRefs {
+		if obj.Name() != name {
+			continue
+		}
+		if pos.IsValid() && obj.Parent() != nil && !obj.Parent().Contains(pos) {
+			continue
+		}
+		if pos.IsValid() && obj.Pos() > pos {
+			continue
+		}
+		if target == nil || obj.Pos() > target.Pos() {
+			target = obj
+		}
+	}
+	if target == nil && pos.IsValid() {
 		if sc := fc.eng.tpkg.Scope().Innermost(pos); sc != nil {
 			_, target = sc.LookupParent(name, pos)
 		}
+	}
+	if os.Getenv("GVC_DEBUG") != "" {
+		fmt.Fprintf(os.Stderr, "resolveLocal %s at %v: target=%v\n", name, fc.eng.fset.Position(pos), target)
 	}
 	if target != nil {
 		if _, isVar := target.(*types.Var); !isVar {
@@ -248,6 +268,11 @@ func (fc *FnCtx) evalExpr(e *Expr, env *Env) Val {
 				sort = arrSort(sInt)
 			}
 			nm := qsym("q." + q.Name)
+			if q.Sort == "str" {
+				inner.bound[q.Name] = Val{T: nm, Sort: sInt, IsStr: true}
+				decls = append(decls, fmt.Sprintf("(%s %s)", nm, sort))
+				continue
+			}
 			inner.bound[q.Name] = Val{T: nm, Sort: sort, Math: sort == sInt}
 			decls = append(decls, fmt.Sprintf("(%s %s)", nm, sort))
 		}
@@ -793,6 +818,9 @@ func (fc *FnCtx) evalCall(e *Expr, env *Env) Val {
 		}
 		mem := env.heap.get("E."+fc.eng.elemKey(st.Elem()), arr2Sort(sInt))
 		return Val{T: sel(mem, sx("s-obj", a.T)), Sort: arrSort(sInt)}
+	case "cat":
+		a := args()
+		return Val{T: sx("strcat", a[0].T, a[1].T), Sort: sInt, IsStr: true}
 	case "slenid":
 		return mathInt(sx("slen", args()[0].T))
 	case "deref":
@@ -1142,6 +1170,8 @@ func (fc *FnCtx) runAts(kind, pattern string, instr ssa.Instruction, args []Val,
 				env.vars[fmt.Sprintf("arg%d", k)] = a
 			}
 			if after {
+				env.before = fc.preCallHeap
+				env.beforeGhost = fc.preCallGhost
 				env.vars["ret"] = res
 				for k, f := range res.Fields {
 					env.vars[fmt.Sprintf("ret%d", k)] = f
